@@ -231,6 +231,20 @@ CLAIMED = {
         "model (C13/C19); quiescence is established by settling the loop and draining the writer.",
         "DESIGN.md §6 C06",
     ),
+    "C07": (
+        "Lean 4 theorems on the transaction model (all-or-nothing, later tasks proceed, coherence after failure; fault at the k-th put fails the whole sequence) + fault enumeration against the real code: engine errors at every mutation point of both backends and process kills on file-backed stores",
+        "Partial by nature: atomicity and durability of a transaction are properties of LMDB / SQLite (trusted). The model "
+        "(Props/C07.lean) states what the relay's code must add: all mutations of one event in one transaction whose failure "
+        "leaves the state unchanged, and no effect on later events. The tie is a fault enumeration: a hook in the lmdb "
+        "stand-in (below kv.py) raises MapFullError / lmdb.Error / RuntimeError at the k-th put/delete/commit of the writer "
+        "task, a SQLAlchemy listener raises at the k-th statement of add_event, for every event of generated histories "
+        "(replaceable supersession, kind-0 clean-up, kind-5 deletions); the store must equal the state before the event and "
+        "the remaining events must give the state of the history without it. Child processes are killed with os._exit at "
+        "sampled mutation points on file-backed LMDB (real liblmdb) and SQLite and the parent reopens the files.",
+        "Trusted: engine atomicity/durability, WAL recovery, fsync; the ctypes binding; quick tier samples up to 6 mutation "
+        "points per event and 3 kills per backend, thorough enumerates all points.",
+        "DESIGN.md §6 C07",
+    ),
 }
 
 NOT_YET = "not reached yet in this round (model/tie not built); see DESIGN.md §10 staging — no weaker technique is substituted"
